@@ -9,6 +9,7 @@ import Driver.Dispatch
 import Driver.Container
 import Driver.HashSet
 import Driver.Str
+import Driver.Target
 
 def main (args : List String) : IO UInt32 := do
   match args with
@@ -23,4 +24,5 @@ def main (args : List String) : IO UInt32 := do
   | ["container"] => Driver.Container.main; return 0
   | ["hashset"] => Driver.HashSet.main; return 0
   | ["str"] => Driver.Str.main; return 0
+  | ["target"] => Driver.Target.main; return 0
   | _ => IO.eprintln "usage: driver <area>"; return 2
